@@ -38,8 +38,8 @@ pub(crate) mod verif_cmd {
     // ---------------------------------------------------------------- E-FS: the output path "o"
     pub const N: usize = 8;
     pub struct Fs { pub exists: bool, pub len: usize, pub data: [u8; N], pub creates: usize, pub appends_opened: usize, pub pos: usize, pub append: bool,
-                    pub overflow: bool, pub writes: usize, pub flushes: usize, pub removes: usize }
-    pub static mut FS: Fs = Fs { exists: false, len: 0, data: [0; N], creates: 0, appends_opened: 0, pos: 0, append: false, overflow: false, writes: 0, flushes: 0, removes: 0 };
+                    pub overflow: bool, pub writes: usize, pub flushes: usize, pub removes: usize, pub opens: usize }
+    pub static mut FS: Fs = Fs { exists: false, len: 0, data: [0; N], creates: 0, appends_opened: 0, pos: 0, append: false, overflow: false, writes: 0, flushes: 0, removes: 0, opens: 0 };
     pub static mut IN_EXISTS: bool = true; // the input path "i"
     pub static mut OO_APPEND: bool = false;
     pub static mut OO_CREATE: bool = false;
@@ -48,7 +48,7 @@ pub(crate) mod verif_cmd {
     pub static mut IN_OPENS: crate::Z8 = crate::Z8(0);
 
     pub fn create_model<P: AsRef<Path>>(_p: P) -> std::io::Result<File> {
-        unsafe { FS.exists = true; FS.len = 0; FS.pos = 0; FS.append = false; FS.creates += 1; Ok(File::from_raw_fd(7)) }
+        unsafe { FS.exists = true; FS.len = 0; FS.pos = 0; FS.append = false; FS.creates += 1; FS.opens += 1; Ok(File::from_raw_fd(7)) }
     }
     pub fn open_model<P: AsRef<Path>>(_p: P) -> std::io::Result<File> {
         unsafe { IN_OPENS.0 += 1; if IN_EXISTS { Ok(File::from_raw_fd(8)) } else { Err(std::io::Error::from(std::io::ErrorKind::NotFound)) } }
@@ -94,6 +94,7 @@ pub(crate) mod verif_cmd {
             FS.append = OO_APPEND;
             FS.pos = 0; // Linux: an O_APPEND descriptor reports offset 0 until its first write
             if OO_APPEND { FS.appends_opened += 1; }
+            FS.opens += 1; // a writable descriptor on the output path was obtained (whichever API did it)
             Ok(File::from_raw_fd(7))
         }
     }
@@ -247,7 +248,7 @@ pub(crate) mod verif_cmd {
             else if ops[i] % 3 == 1 { let _ = f.flush(); touched += 1; }
             unsafe {
                 if touched == 0 { assert!(FS.creates == 0 && FS.len == (if pre { 3 } else { 0 }), "[C13] no file is created or truncated before the first write/flush"); }
-                else { assert!(FS.creates == 1, "[C13,C12] the file is created at the first write or flush, exactly once (also when the first operation is a flush)"); }
+                else { assert!(FS.opens == 1 && FS.exists, "[C13,C12] the file is opened (created if absent) at the first write or flush, exactly once (also when the first operation is a flush)"); }
             }
             i += 1;
         }
@@ -484,7 +485,7 @@ pub(crate) mod verif_cmd {
                 if LIB_WRITES.0 == 0 || USE_STDOUT {
                     assert!(FS.creates == 0 && FS.exists == pre_exists && FS.len == plen, "[C13] if the library fails before its first write (bad header, wrong key, refused exchange) the output path is untouched");
                 } else {
-                    assert!(FS.creates == 1 && FS.len == LIB_WRITES.0 && FS.data[0] == 0x41 && (LIB_WRITES.0 < 2 || FS.data[1] == 0x42), "[C13,C12] the output file holds exactly what the library wrote (the authenticated prefix), nothing else");
+                    assert!(FS.opens == 1 && FS.exists && FS.len == LIB_WRITES.0 && FS.data[0] == 0x41 && (LIB_WRITES.0 < 2 || FS.data[1] == 0x42), "[C13,C12] the output file holds exactly what the library wrote (the authenticated prefix), nothing else");
                 }
             }
         }
